@@ -111,6 +111,9 @@ func (d *Driver) judge() {
 	if p.judges("C13") {
 		d.judgeC13()
 	}
+	if p.judges("C06") {
+		d.judgeC06()
+	}
 	if p.judges("C07") {
 		d.judgeC07()
 	}
@@ -119,6 +122,12 @@ func (d *Driver) judge() {
 	}
 	if p.judges("C09") {
 		d.judgeC09()
+	}
+	if p.judges("C10") {
+		d.judgeC10safety()
+		if p.Family == "c10" {
+			d.judgeC10prompt()
+		}
 	}
 	if p.judges("C11") {
 		d.judgeC11()
